@@ -3,6 +3,7 @@ package main
 import (
 	"fmt"
 	"go/types"
+	"golang.org/x/tools/go/ssa"
 	"strings"
 )
 
@@ -138,4 +139,105 @@ func c20R10(h H) {
 		}
 	}
 	r.Check(bad == "", "R10", "log.logParse/independent-directives", fn.Pos(), "each log directive's entry carries what its own block says", fmt.Sprintf("%d directives parsed", len(wants)), bad)
+}
+
+// c20R11: a reload starts the new instance's loggers before it closes the old instance's, and both usually name the
+// same file.  Logger.Start / Logger.Close are evaluated (E10; the operating system's files are oracles that record
+// which were closed) over that sequence — old.Start, new.Start, old.Close — for a log file without rotation: the new
+// logger's writer is still open afterwards (its lines are not lost), and the old logger's own file is closed.
+func c20R11(h H) {
+	r := h.r
+	r.Rule("R11", "a reload does not close the log it has just opened, as a table (E10) of httpserver.Logger.Start and Close over the sequence old.Start, new.Start, old.Close on one unrotated log file (roller absent or disabled): afterwards the new logger writes to a file that has not been closed, and the file the old logger opened has been", 1)
+	st := h.fn("R11", hs, "(*Logger).Start")
+	cl := h.fn("R11", hs, "(*Logger).Close")
+	if st == nil || cl == nil {
+		return
+	}
+	lT := derefType(st.Params[0].Type())
+	var fileT types.Type = types.Typ[types.Int]
+	if t := h.p.typeByName("os", "File"); t != nil {
+		fileT = t
+	}
+	bad, n := "", 0
+	for _, roller := range []string{"absent", "disabled"} {
+		closed := map[*aobj]bool{}
+		var opened []*aobj
+		stdFile := func(name string) *aobj {
+			return &aobj{name: name, typ: types.NewPointer(fileT), f: map[string]aval{"": aptr{&aobj{name: name + " file", typ: fileT, f: map[string]aval{}}, ""}}}
+		}
+		env := &absEnv{globals: map[string]*aobj{"Stdout": stdFile("os.Stdout"), "Stderr": stdFile("os.Stderr")}, noFork: true, maxSteps: 200000}
+		env.ext = func(callee string, args []aval) (aval, bool) {
+			switch {
+			case callee == "os.OpenFile":
+				f := &aobj{name: sprintf("file #%d", len(opened)+1), typ: fileT, f: map[string]aval{}}
+				opened = append(opened, f)
+				return atuple{aptr{f, ""}, anil{}}, true
+			case callee == "(*os.File).Close":
+				if p, ok := args[0].(aptr); ok {
+					closed[p.obj] = true
+				}
+				return anil{}, true
+			case callee == "(*os.File).Name":
+				return astr("/var/log/access.log"), true
+			case callee == "path/filepath.Abs":
+				return atuple{args[0], anil{}}, true
+			case callee == "log.New":
+				return aptr{&aobj{name: "log.Logger", typ: types.Typ[types.Int], f: map[string]aval{}}, ""}, true
+			case strings.HasSuffix(callee, "httpserver.parseSyslogAddress"):
+				return anil{}, true
+			case callee == "invoke:Close":
+				if p, ok := ifaceVal(args[0]).(aptr); ok {
+					closed[p.obj] = true
+				}
+				return anil{}, true
+			}
+			return nil, false
+		}
+		mk := func(name string) *aobj {
+			o := &aobj{name: name, typ: lT, f: map[string]aval{"Output": astr("/var/log/access.log"), "writer": anil{}, "fileMu": anil{}, "Logger": anil{}}}
+			if roller == "absent" {
+				o.f["Roller"] = anil{}
+			} else {
+				var rollerT types.Type = types.Typ[types.Int]
+				if t := h.p.typeByName(modPath+"/"+hs, "LogRoller"); t != nil {
+					rollerT = t
+				}
+				ro := &aobj{name: "roller of " + name, typ: rollerT, f: map[string]aval{"Disabled": abool(true)}}
+				ro.in = func(o *aobj, path string, t types.Type) aval { return zeroOf(t) }
+				o.f["Roller"] = aptr{ro, ""}
+			}
+			o.in = func(o *aobj, path string, t types.Type) aval { return zeroOf(t) }
+			return o
+		}
+		oldL, newL := mk("old logger"), mk("new logger")
+		n++
+		desc := "log file without rotation (roller " + roller + "), old.Start → new.Start → old.Close"
+		und := ""
+		for _, step := range []struct {
+			fn *ssa.Function
+			l  *aobj
+		}{{st, oldL}, {st, newL}, {cl, oldL}} {
+			if _, u := env.run(step.fn, []aval{aptr{step.l, ""}}); u != "" {
+				und = u
+				break
+			}
+		}
+		if und != "" {
+			bad = desc + ": undecided — " + und
+			break
+		}
+		w, _ := ifaceVal(env.load(newL, "writer")).(aptr)
+		switch {
+		case w.obj == nil:
+			bad = desc + ": the new logger has no writer: " + describeAval(env.load(newL, "writer"))
+		case closed[w.obj]:
+			bad = desc + ": the file the new logger writes to (" + w.obj.name + ") has been closed — every request after the reload is answered and none is logged"
+		case len(opened) == 0 || !closed[opened[0]]:
+			bad = desc + ": the file the old logger opened is left open"
+		}
+		if bad != "" {
+			break
+		}
+	}
+	r.Check(bad == "", "R11", "httpserver.(*Logger)/start-new-then-close-old", st.Pos(), "closing the old instance's logger leaves the new instance's log file open", sprintf("%d sequences evaluated", n), bad)
 }
